@@ -292,11 +292,9 @@ CHILD1 = {
     'nP1': ('norm', ['P', 1], {'P': 'any'}, False),
     'n0P': ('norm', [0, 'P'], {'P': 'pos'}, False),
     'nP': ('norm', ['P'], {'P': 'any'}, False),
-    'nPP': ('norm', ['P', 'P'], {'P': 'pos'}, False),
     'uP1': ('uniform', ['P', 1], {'P': 'any'}, 'P'),
     'u0P': ('uniform', [0, 'P'], {'P': 'pos'}, False),
     'uP': ('uniform', ['P'], {'P': 'any'}, 'P'),
-    'uPP': ('uniform', ['P', 'P'], {'P': 'pos'}, True),
     'eP1': ('expon', ['P', 1], {'P': 'any'}, 'P'),
     'e0P': ('expon', [0, 'P'], {'P': 'pos'}, False),
     'bP2': ('beta', [2, 3, 'P', 2], {'P': 'any'}, 'P'),
